@@ -47,6 +47,12 @@ def family(name):
              "mu_o": lambda p: np.where(p < pb, 1.2 - 2e-4 * p, 0.6 + 3e-5 * (p - pb)),
              "mu_g": lambda p: 0.013 + 2e-6 * p, "mu_w": one(0.4),
              "So": lambda p: np.where(p < pb, 0.45 + 1e-4 * p, 0.75)}
+    elif name == "swelling":  # Bo grows with pressure at constant Rs and little free gas: stored mass FALLS with pressure
+        f = dict(family("invB-linear"))
+        f["Bo"] = lambda p: 1.0 + 8e-5 * p
+        f["Bg"] = lambda p: 1 / (20.0 + 1e-4 * p)
+        f["Rs"] = one(0.0)
+        f["So"] = one(0.85)
     elif name == "vaporised":
         f = dict(family("invB-linear"))
         f["Rv"] = lambda p: 2e-5 + 1e-8 * p
